@@ -1,130 +1,139 @@
 """Source of MANIFEST.json (bin/gen_manifest writes it). One entry per claimed property."""
 
-CLAIMED = {
-    "C02": {
-        "text": "Lean theorems (all event scripts, contents, option sets, configurations with wrap in {0,1,None}): every trace "
-                "of the transfer model is accepted by the lock-step/retransmission automaton c02Check, a packet is sent at "
-                "most 1+max_retries times, and the transfer ends within packets*(1+max_retries)*timeout plus handling slack. "
-                "The model is tied to the code by running the real TftpServer and transfer threads on simulated sockets with "
-                "a virtual clock and comparing traces; the same Lean automaton is evaluated on the implementation's trace.",
-        "note": "Trusted: Lean kernel (axioms audited ⊆ propext/Classical.choice/Quot.sound), translator of protocol "
-                "constants, the simulation harness and the compiled driver. Wall-clock scheduling of a loaded host and UDP "
-                "reordering beyond script order are outside the model (partial).",
-        "technique": "Lean 4 proof (trace automaton accepted for all scripts, induction over tries/blocks/script) + "
-                     "differential correspondence on simulated sockets",
-        "design_ref": "DESIGN.md §5 C02",
-    },
-}
+CLAIMED = {'C01': {'design_ref': 'DESIGN.md §5 C01',
+         'note': 'Trusted: Lean kernel (axioms of every listed theorem audited each run ⊆ '
+                 'propext/Classical.choice/Quot.sound), the translator of protocol constants, the simulation harness '
+                 '(fake UDP sockets, virtual clock, real threads) and the compiled model driver. Modelled rather '
+                 'than verified: CPython and stdlib pieces, UDP delivery (script order stands for network order). '
+                 'Partial: kernel-level reordering/duplication beyond the script is not modelled.',
+         'technique': 'Lean 4 proof (reader invariant + prefix-of-ideal by induction over blocks/tries/script) + '
+                      'differential correspondence on simulated sockets',
+         'text': "Lean theorems: for every content, short-read pattern and block size the reader model's blocks "
+                 'concatenate to the content with correct framing, independent of read splitting; for every event '
+                 'script and configuration (wrap 0/1/None) the DATA packets of the transfer model are a prefix of '
+                 'the ideal numbered packet sequence and all of it unless the trace shows an abort; numbering '
+                 '1..65535 then the wrap value; without wrap value the sequence stops and an ERROR follows. Tied to '
+                 'the code by running the real server on simulated sockets and evaluating the same Lean checker '
+                 "(c01Check) on the implementation's trace."},
+ 'C02': {'design_ref': 'DESIGN.md §5 C02',
+         'note': 'Trusted: Lean kernel (axioms audited ⊆ propext/Classical.choice/Quot.sound), translator of '
+                 'protocol constants, the simulation harness and the compiled driver. Wall-clock scheduling of a '
+                 'loaded host and UDP reordering beyond script order are outside the model (partial).',
+         'technique': 'Lean 4 proof (trace automaton accepted for all scripts, induction over tries/blocks/script) + '
+                      'differential correspondence on simulated sockets',
+         'text': 'Lean theorems (all event scripts, contents, option sets, configurations with wrap in {0,1,None}): '
+                 'every trace of the transfer model is accepted by the lock-step/retransmission automaton c02Check, '
+                 'a packet is sent at most 1+max_retries times, and the transfer ends within '
+                 'packets*(1+max_retries)*timeout plus handling slack. The model is tied to the code by running the '
+                 'real TftpServer and transfer threads on simulated sockets with a virtual clock and comparing '
+                 "traces; the same Lean automaton is evaluated on the implementation's trace."},
+ 'C07': {'design_ref': 'DESIGN.md §5 C07',
+         'note': 'Trusted: Lean kernel (axioms of every listed theorem audited each run ⊆ '
+                 'propext/Classical.choice/Quot.sound), the translator of protocol constants, the simulation harness '
+                 '(fake UDP sockets, virtual clock, real threads) and the compiled model driver. Modelled rather '
+                 'than verified: CPython and stdlib pieces, UDP delivery (script order stands for network order). '
+                 "How the server probes a stream's size (isinstance/fstat/tell) is differential evidence; the model "
+                 "only knows 'size known'.",
+         'technique': 'Lean 4 proof (decision-logic iff specs, numeral round trip, trace theorems) + differential '
+                      'correspondence',
+         'text': 'Lean theorems: iff-characterisations of blksize/timeout/tsize acceptance incl. str(int(v)) = v for '
+                 'every canonical decimal (so timeout is echoed unchanged), the OACK names only options the client '
+                 "sent (case-insensitive) in fixed order, the constructor's clamps, block size within [8, max]; for "
+                 'every script the first datagram is exactly the prescribed OACK (or no OACK at all), the DATA '
+                 'packets use the negotiated block size (C01 theorem), retransmission uses the negotiated interval '
+                 'and block 1 follows only ACK 0 (C02 theorem), and tsize equals the bytes delivered by an unaborted '
+                 'transfer. Correspondence: option grids × server limits × stream kinds (BytesIO/file at offsets, '
+                 'pipe, raw) through the real server.'},
+ 'C08': {'design_ref': 'DESIGN.md §5 C08',
+         'note': 'Trusted: Lean kernel (axioms of every listed theorem audited each run ⊆ '
+                 'propext/Classical.choice/Quot.sound), the translator of protocol constants, the simulation harness '
+                 '(fake UDP sockets, virtual clock, real threads) and the compiled model driver. Modelled rather '
+                 'than verified: CPython and stdlib pieces, UDP delivery (script order stands for network order). ',
+         'technique': 'Lean 4 proof (stream invariant buf ++ refSkip lastCR rest, induction over reads) + exhaustive '
+                      'small-scope correspondence',
+         'text': 'Lean theorems: one converted read contributes exactly what the whole-buffer reference conversion '
+                 'says whatever follows (chunk_ref); hence for every content, every partition into short reads and '
+                 'every block size ≥ 1 the concatenated blocks equal the reference conversion (CR LF kept, every '
+                 'other CR/LF → CR LF) with octet-mode framing; netascii never acknowledges tsize; whole netascii '
+                 'transfers satisfy the C01 prefix/completeness checker. Correspondence: exhaustive {CR,LF,x}^≤n × '
+                 'cut sets × block sizes at reader level plus full sessions.'},
+ 'C09': {'design_ref': 'DESIGN.md §5 C09',
+         'note': 'Trusted: Lean kernel (axioms of every listed theorem audited each run ⊆ '
+                 'propext/Classical.choice/Quot.sound), the translator of protocol constants, the simulation harness '
+                 '(fake UDP sockets, virtual clock, real threads) and the compiled model driver. Modelled rather '
+                 'than verified: CPython and stdlib pieces, UDP delivery (script order stands for network order). '
+                 "Partial: the HTTP half rests on http.server's parser (not modelled); foreign non-interference is "
+                 "proved as 'deadline unchanged' (C02 automaton) rather than as a trace-equality theorem. The HTTP "
+                 "request parser is not modelled; clients that reset the connection (not 'client-controlled bytes') "
+                 'are outside the default stream.',
+         'technique': 'Lean 4 proof (total decoders, trace automaton accepted for all scripts) + differential '
+                      'correspondence incl. exhaustive short datagrams',
+         'text': 'Lean theorems (TFTP half): the decoders are total; any ERROR packet (any code, any length) is a '
+                 'peer error after which nothing is sent; an invalid packet is the last thing received and is '
+                 'answered by exactly one well-formed ERROR; foreign peers get ERROR 5 only; no exception record '
+                 'unless the handler/stream raised (c09Check accepted for every script); the request port answers '
+                 'every datagram with nothing, one well-formed ERROR, or a transfer; RRQ decoding round-trips and is '
+                 'sound w.r.t. the RFC 1350/2347 shape. Correspondence: exhaustive/grammar/mutated datagrams on the '
+                 'request port and packets injected into transfers. HTTP half: the request gate of _delegate_request '
+                 'is a theorem (400 without any handler call iff the path lacks a leading slash or contains NUL; '
+                 "every outcome is one well-formed response); everything before the gate is http.server's parser and "
+                 'is differential: malformed/unsupported request heads over real loopback TCP, each followed by a '
+                 'liveness request; responses are parsed by the Lean parseResponse; no exception record may appear.'},
+ 'C10': {'design_ref': 'DESIGN.md §5 C10',
+         'note': 'Trusted: Lean kernel (axioms of every listed theorem audited each run ⊆ '
+                 'propext/Classical.choice/Quot.sound), the translator of protocol constants, the simulation harness '
+                 '(fake UDP sockets, virtual clock, real threads) and the compiled model driver. Modelled rather '
+                 'than verified: CPython and stdlib pieces, UDP delivery (script order stands for network order). '
+                 "'Contexts never mixed between concurrent requests' is true in the model by construction; for the "
+                 'code it is differential evidence.',
+         'technique': 'Lean 4 proof (dispatch decision logic) + differential correspondence with recording handlers',
+         'text': 'Lean theorems (TFTP half): the handler used is the least index whose can_handle accepts; '
+                 'prepare_context/can_handle are called for exactly the handlers up to it in order and handle once; '
+                 'FILE_NOT_FOUND iff none accepts; the server address keeps port, flow info and scope of the socket '
+                 "and takes the packet's destination host when reported. Correspondence: handler lists with accept "
+                 'tables, pktinfo on/off, bind addresses; recorded call arguments compared with the statement. HTTP '
+                 'half: dispatch_first/dispatch_calls/dispatch_raise/none_404 for the HTTP dispatcher; '
+                 'correspondence with scripted handlers recording all arguments (method, undecoded URI, headers, '
+                 'body, client and server socket addresses) for IPv4/IPv6 clients and several bind addresses, plus '
+                 'concurrent requests with distinct URIs.'},
+ 'C19': {'design_ref': 'DESIGN.md §5 C19',
+         'note': 'Trusted: Lean kernel (axioms audited), the deterministic scheduler harness/sched.py (real threads '
+                 'serialised at traced source lines, cooperative locks) and the compiled driver. The theorems are '
+                 "about a lock-granularity model; that the code's critical sections are where the model says is "
+                 'established only by the enumerated schedules (exploration supporting the tie, not standing in for '
+                 'the theorem). Sequential behaviour of TextFileSource/DataStore/YamlTargetSource used as reference '
+                 'for the linearization search is the real code run sequentially (verified against Lean models by '
+                 'C14/C15/C12); for the synchronized LRU the search runs in Lean on the Lean model. Partial: '
+                 'pre-emption inside one source line and C-level sqlite/GIL behaviour; the one-read-per-file repair '
+                 'of the YAML source is keyed by file name, two names of one file are still read separately.',
+         'technique': 'Lean 4 proof (lock-granularity small-step model: mutex invariant, sequential log, '
+                      'linearizability checker accepted, no deadlock, for all thread counts and schedules) + '
+                      'enumerated schedules of real threads',
+         'text': 'Lean theorems for every component whose operations each run inside one critical section of one '
+                 'lock, for every number of threads, every program and EVERY schedule of acquire/load/store/release '
+                 'steps (the critical section is not atomic in the model): mutual exclusion, the log is a valid '
+                 'sequential execution, the per-thread results pass the linearizability checker (also evaluated in '
+                 "Lean on the real synchronized LRU's results), no deadlock. Correspondence: real threads on "
+                 'SynchronizedCache(LRUCache), DataStore, TextFileSource and YamlTargetSource under a deterministic '
+                 'scheduler with enumerated single pre-emptions at every traced line (sweeps) and sampled double '
+                 'pre-emptions, a file rewrite placed at every point; results must be among the sequential outcomes '
+                 'and the component must answer correctly afterwards.'},
+ 'C20': {'design_ref': 'DESIGN.md §5 C20',
+         'note': 'Trusted: Lean kernel (axioms of every listed theorem audited each run ⊆ '
+                 'propext/Classical.choice/Quot.sound), the translator of protocol constants, the simulation harness '
+                 '(fake UDP sockets, virtual clock, real threads) and the compiled model driver. Modelled rather '
+                 'than verified: CPython and stdlib pieces, UDP delivery (script order stands for network order). '
+                 'Partial: OS port release and thread death are observed, not proved; real-thread pre-emption inside '
+                 'a critical section is not explored for the lifecycle calls (random delays only).',
+         'technique': 'Lean 4 proof (resource events over all endings) + differential correspondence',
+         'text': 'Lean theorems: (transfers) every ending of a TFTP transfer closes the socket exactly once as the '
+                 "last action and the handler's file exactly once directly before it; (lifecycle, TFTP and HTTP "
+                 'servers) invariant-based proof that for ANY number of threads calling start()/stop() under EVERY '
+                 'interleaving of their critical sections the server ends fully running or fully stopped, no '
+                 'deadlock, start/stop idempotent, a quiescent stop ends the main thread and releases the socket, '
+                 'restart serves. Correspondence: all sequential start/stop/request histories up to a length bound '
+                 'and concurrent calls from 2-4 threads on the real servers (TFTP on simulated sockets; HTTP on real '
+                 'loopback with connect/bind/thread probes), all transfer endings through the real transfer '
+                 'threads.'}}
 
-CLAIMED['C01'] = {'design_ref': 'DESIGN.md §5 C01',
- 'note': 'Trusted: Lean kernel (axioms of every listed theorem audited each run ⊆ '
-         'propext/Classical.choice/Quot.sound), the translator of protocol constants, the simulation harness '
-         '(fake UDP sockets, virtual clock, real threads) and the compiled model driver. Modelled rather '
-         'than verified: CPython and stdlib pieces, UDP delivery (script order stands for network order). '
-         'Partial: kernel-level reordering/duplication beyond the script is not modelled.',
- 'technique': 'Lean 4 proof (reader invariant + prefix-of-ideal by induction over blocks/tries/script) + '
-              'differential correspondence on simulated sockets',
- 'text': "Lean theorems: for every content, short-read pattern and block size the reader model's blocks "
-         'concatenate to the content with correct framing, independent of read splitting; for every event '
-         'script and configuration (wrap 0/1/None) the DATA packets of the transfer model are a prefix of '
-         'the ideal numbered packet sequence and all of it unless the trace shows an abort; numbering '
-         '1..65535 then the wrap value; without wrap value the sequence stops and an ERROR follows. Tied to '
-         'the code by running the real server on simulated sockets and evaluating the same Lean checker '
-         "(c01Check) on the implementation's trace."}
-
-CLAIMED['C07'] = {'design_ref': 'DESIGN.md §5 C07',
- 'note': 'Trusted: Lean kernel (axioms of every listed theorem audited each run ⊆ '
-         'propext/Classical.choice/Quot.sound), the translator of protocol constants, the simulation harness '
-         '(fake UDP sockets, virtual clock, real threads) and the compiled model driver. Modelled rather '
-         'than verified: CPython and stdlib pieces, UDP delivery (script order stands for network order). '
-         "How the server probes a stream's size (isinstance/fstat/tell) is differential evidence; the model "
-         "only knows 'size known'.",
- 'technique': 'Lean 4 proof (decision-logic iff specs, numeral round trip, trace theorems) + differential '
-              'correspondence',
- 'text': 'Lean theorems: iff-characterisations of blksize/timeout/tsize acceptance incl. str(int(v)) = v for '
-         'every canonical decimal (so timeout is echoed unchanged), the OACK names only options the client '
-         "sent (case-insensitive) in fixed order, the constructor's clamps, block size within [8, max]; for "
-         'every script the first datagram is exactly the prescribed OACK (or no OACK at all), the DATA '
-         'packets use the negotiated block size (C01 theorem), retransmission uses the negotiated interval '
-         'and block 1 follows only ACK 0 (C02 theorem), and tsize equals the bytes delivered by an unaborted '
-         'transfer. Correspondence: option grids × server limits × stream kinds (BytesIO/file at offsets, '
-         'pipe, raw) through the real server.'}
-
-CLAIMED['C08'] = {'design_ref': 'DESIGN.md §5 C08',
- 'note': 'Trusted: Lean kernel (axioms of every listed theorem audited each run ⊆ '
-         'propext/Classical.choice/Quot.sound), the translator of protocol constants, the simulation harness '
-         '(fake UDP sockets, virtual clock, real threads) and the compiled model driver. Modelled rather '
-         'than verified: CPython and stdlib pieces, UDP delivery (script order stands for network order). ',
- 'technique': 'Lean 4 proof (stream invariant buf ++ refSkip lastCR rest, induction over reads) + exhaustive '
-              'small-scope correspondence',
- 'text': 'Lean theorems: one converted read contributes exactly what the whole-buffer reference conversion '
-         'says whatever follows (chunk_ref); hence for every content, every partition into short reads and '
-         'every block size ≥ 1 the concatenated blocks equal the reference conversion (CR LF kept, every '
-         'other CR/LF → CR LF) with octet-mode framing; netascii never acknowledges tsize; whole netascii '
-         'transfers satisfy the C01 prefix/completeness checker. Correspondence: exhaustive {CR,LF,x}^≤n × '
-         'cut sets × block sizes at reader level plus full sessions.'}
-
-CLAIMED['C09'] = {'design_ref': 'DESIGN.md §5 C09',
- 'note': 'Trusted: Lean kernel (axioms of every listed theorem audited each run ⊆ '
-         'propext/Classical.choice/Quot.sound), the translator of protocol constants, the simulation harness '
-         '(fake UDP sockets, virtual clock, real threads) and the compiled model driver. Modelled rather '
-         'than verified: CPython and stdlib pieces, UDP delivery (script order stands for network order). '
-         "Partial: the HTTP half rests on http.server's parser (not modelled); foreign non-interference is "
-         "proved as 'deadline unchanged' (C02 automaton) rather than as a trace-equality theorem.",
- 'technique': 'Lean 4 proof (total decoders, trace automaton accepted for all scripts) + differential '
-              'correspondence incl. exhaustive short datagrams',
- 'text': 'Lean theorems (TFTP half): the decoders are total; any ERROR packet (any code, any length) is a '
-         'peer error after which nothing is sent; an invalid packet is the last thing received and is '
-         'answered by exactly one well-formed ERROR; foreign peers get ERROR 5 only; no exception record '
-         'unless the handler/stream raised (c09Check accepted for every script); the request port answers '
-         'every datagram with nothing, one well-formed ERROR, or a transfer; RRQ decoding round-trips and is '
-         'sound w.r.t. the RFC 1350/2347 shape. Correspondence: exhaustive/grammar/mutated datagrams on the '
-         'request port and packets injected into transfers.'}
-
-CLAIMED['C10'] = {'design_ref': 'DESIGN.md §5 C10',
- 'note': 'Trusted: Lean kernel (axioms of every listed theorem audited each run ⊆ '
-         'propext/Classical.choice/Quot.sound), the translator of protocol constants, the simulation harness '
-         '(fake UDP sockets, virtual clock, real threads) and the compiled model driver. Modelled rather '
-         'than verified: CPython and stdlib pieces, UDP delivery (script order stands for network order). '
-         "'Contexts never mixed between concurrent requests' is true in the model by construction; for the "
-         'code it is differential evidence.',
- 'technique': 'Lean 4 proof (dispatch decision logic) + differential correspondence with recording handlers',
- 'text': 'Lean theorems (TFTP half): the handler used is the least index whose can_handle accepts; '
-         'prepare_context/can_handle are called for exactly the handlers up to it in order and handle once; '
-         'FILE_NOT_FOUND iff none accepts; the server address keeps port, flow info and scope of the socket '
-         "and takes the packet's destination host when reported. Correspondence: handler lists with accept "
-         'tables, pktinfo on/off, bind addresses; recorded call arguments compared with the statement.'}
-
-CLAIMED['C20'] = {'design_ref': 'DESIGN.md §5 C20',
- 'note': 'Trusted: Lean kernel (axioms of every listed theorem audited each run ⊆ '
-         'propext/Classical.choice/Quot.sound), the translator of protocol constants, the simulation harness '
-         '(fake UDP sockets, virtual clock, real threads) and the compiled model driver. Modelled rather '
-         'than verified: CPython and stdlib pieces, UDP delivery (script order stands for network order). '
-         'Partial: OS port release and thread death are observed, not proved; lifecycle (start/stop) '
-         'automata are added separately.',
- 'technique': 'Lean 4 proof (resource events over all endings) + differential correspondence',
- 'text': 'Lean theorem (transfer half): every ending of a transfer — completed, client ERROR, invalid '
-         'packet, retries exhausted, counter overflow, handler TftpError/exception, stream read fault — '
-         "closes the socket exactly once as the last action and the handler's file exactly once directly "
-         'before it. Correspondence: all endings through the real transfer threads; thread liveness checked.'}
-
-CLAIMED['C19'] = {'design_ref': 'DESIGN.md §5 C19',
- 'note': "Trusted: Lean kernel (axioms audited), the deterministic scheduler harness/sched.py (real threads serialised at traced "
-         "source lines, cooperative locks) and the compiled driver. The theorems are about a lock-granularity model; that the code's "
-         "critical sections are where the model says is established only by the enumerated schedules (exploration supporting the tie, "
-         "not standing in for the theorem). Sequential behaviour of TextFileSource/DataStore/YamlTargetSource used as reference for the "
-         "linearization search is the real code run sequentially (verified against Lean models by C14/C15/C12); for the synchronized "
-         "LRU the search runs in Lean on the Lean model. Partial: pre-emption inside one source line and C-level sqlite/GIL behaviour; "
-         "the one-read-per-file repair of the YAML source is keyed by file name, two names of one file are still read separately.",
- 'technique': 'Lean 4 proof (lock-granularity small-step model: mutex invariant, sequential log, linearizability checker accepted, no '
-              'deadlock, for all thread counts and schedules) + enumerated schedules of real threads',
- 'text': "Lean theorems for every component whose operations each run inside one critical section of one lock, for every number of "
-         "threads, every program and EVERY schedule of acquire/load/store/release steps (the critical section is not atomic in the "
-         "model): mutual exclusion, the log is a valid sequential execution, the per-thread results pass the linearizability checker "
-         "(also evaluated in Lean on the real synchronized LRU's results), no deadlock. Correspondence: real threads on "
-         "SynchronizedCache(LRUCache), DataStore, TextFileSource and YamlTargetSource under a deterministic scheduler with enumerated "
-         "single pre-emptions at every traced line (sweeps) and sampled double pre-emptions, a file rewrite placed at every point; "
-         "results must be among the sequential outcomes and the component must answer correctly afterwards."}
-
-IN_PROGRESS_REASON = ("not claimed yet: model/theorems/correspondence for this property are still being built in this "
-                      "round (see DESIGN.md §9); the technique applies")
+IN_PROGRESS_REASON = 'not claimed yet: model/theorems/correspondence for this property are still being built in this round (see DESIGN.md §9); the technique applies'
